@@ -108,7 +108,7 @@ VERIF_CONTRACT(__CPROVER_requires(LB_T(d) && LB_N <= 48) __CPROVER_ensures(RV ==
 	(int)(ret).corr == leaps_corr[S_LB_DT(d2)] - leaps_corr[S_LB_DT(d1)])
 /* difference of two sandwiches in seconds */
 #define PRE_dt_dtdiff_s(tgt, d1, d2) ((tgt) == DT_DURS && V_SANDWICH(d1) && V_SANDWICH(d2) && DIFF_T((d1).d.typ) && DIFF_T((d2).d.typ))
-#define POST_dt_dtdiff_s(ret, tgt, d1, d2) ((ret).durtyp == DT_DURS && (ret).neg == 0 && (ret).tai == 0 && (long long)(ret).dv == U_DT(d2) - U_DT(d1))
+#define POST_dt_dtdiff_s(ret, tgt, d1, d2) ((ret).durtyp == DT_DURS && (ret).neg == 0 && (ret).tai == 0 && (long long)(ret).dv == U_DIFF(d1, d2))   /* == U(d2) - U(d1), in carry form */
 #if defined VERIF_TU_DT_CORE
 #define PRE_dt_dtdiff(tgt, d1, d2) (PRE_dt_dtdiff_s(tgt, d1, d2) || PRE_dt_dtdiff_tai(tgt, d1, d2))
 #define POST_dt_dtdiff(ret, tgt, d1, d2) ((tgt) == DT_DURTAI ? POST_dt_dtdiff_tai(ret, tgt, d1, d2) : POST_dt_dtdiff_s(ret, tgt, d1, d2))
